@@ -166,7 +166,7 @@ def main(pid, tier, replay_path=None):
             binary = vlib.build_harness(sc, '.', instrumented_pool=True)
             if replay_path:
                 rp = json.load(open(replay_path))
-                behs = [rp['behaviour']]
+                behs = [rp['behaviour']] if 'behaviour' in rp else []
                 stats = {'generated': 0, 'distinct': 0}
             else:
                 stats = exhaustive(sc, cfg='MC_ByteQueue_small.cfg' if tier == 'thorough' else 'MC_ByteQueue_quick.cfg', timeout=1800 if tier == 'thorough' else 900)
@@ -211,6 +211,47 @@ def main(pid, tier, replay_path=None):
                     violations.append(p)
                     vlib.log('violation in %s at step %d (%s): [%s] %s' % (b['id'], r['step'], r['op'], r['class'], r['detail']))
                     vlib.log('   ops: ' + ' '.join('%s(%d,%d)' % (s['op'], s['b'], s['a1']) for s in b['steps'][:r['step'] + 1]))
+            # ---- the node-level transcription LinkBuffer.tla: exhaustive to a bounded number of calls, its behaviours on the real code
+            lbcov = {}
+            if not replay_path or 'lbbehaviour' in rp:
+                import lbmodel
+                if replay_path:
+                    lbehs, lst = [rp['lbbehaviour']], (0, 0)
+                else:
+                    lst = lbmodel.exhaustive(sc, tier)
+                    lbehs = [lbmodel.f3_behaviour(sc)] + lbmodel.sim_behaviours(sc, 300 if tier == 'quick' else 6000, seed)
+                lres, ldied = lbmodel.run_behaviours(sc, binary, lbehs, 'lb')
+                if ldied:
+                    raise vlib.Inconclusive('LinkBuffer model harness died in %s: %s' % ldied[0])
+                mism = 0
+                LCLS = {'C01': ('result', 'panic'), 'C02': ('stability', 'ledger-result'), 'C03': ('ledger', 'ledger-unread')}
+                for b in lbehs:
+                    r = lres.get(b['id'])
+                    if not r:
+                        continue
+                    mm, obs = lbmodel.compare(b, r)
+                    if mm:
+                        mism += 1
+                        if mism <= 2:
+                            vlib.log('note: the code does not follow LinkBuffer.tla in %s at call %d (%s): %s' % (b['id'], mm[0], b['steps'][mm[0]], mm[2][:300]))
+                    for k, cls, detail in obs:
+                        c2 = cls
+                        if cls == 'ledger':
+                            c2 = 'ledger-result' if ' result ' in detail else ('ledger-unread' if ' unread ' in detail else 'ledger')
+                        if c2 not in LCLS[pid]:
+                            continue
+                        if any(st['op'] == 'WriteDirect' and st['m'] > 0 for st in b['steps'][:k + 1]) and c2.startswith('ledger'):
+                            kf = next((f for f in findings if f['id'] == 'F3'), None)
+                            if kf:
+                                known_hit.setdefault('F3', kf)
+                                break
+                        if len(violations) < 5:
+                            violations.append(vlib.save_replay(pid, '%s_lb%d' % (tier, len(violations)), {'property': pid, 'tier': tier, 'seed': seed, 'lbbehaviour': b, 'failure': {'step': k, 'detail': detail}}))
+                            vlib.log('violation in %s at call %d (%s): %s' % (b['id'], k, b['steps'][k], detail))
+                            vlib.log('   calls: ' + ' '.join('%s(%d,%d,%d)' % (st['op'], st['b'], st['n'], st['m']) for st in b['steps'][:k + 1]))
+                        break
+                lbcov = {'linkbuffer_model_states': lst[0], 'linkbuffer_model_transitions': lst[1], 'linkbuffer_model_behaviours_replayed': len(lres),
+                         'linkbuffer_model_calls_replayed': sum(len(b['steps']) for b in lbehs), 'linkbuffer_model_behaviours_not_followed': mism}
             cov = {
                 'states': stats['distinct'] or 1, 'transitions': stats['generated'] or 1,
                 'traces_validated_against_impl': ran,
@@ -227,6 +268,9 @@ def main(pid, tier, replay_path=None):
                                'traces_validated_against_impl: TLC -simulate behaviours of ByteQueue.tla executed step by step on the real LinkBuffer '
                                'with result, Len/MallocLen, readable content, live results, caller memory and pool ledger compared after every step',
             }
+            cov.update(lbcov)
+            if lbcov:
+                cov['spec_modules'] = vlib.spec_hashes(['ByteQueue.tla', 'ByteQueueSim.tla', 'LinkBuffer.tla'])
             vlib.write_evidence(pid, tier if tier in ('quick', 'thorough') else 'quick', 'model_checking', cov, time.time() - t0, len(violations),
                                 ['TLC/SANY', 'Go toolchain', 'harness PRF content and comparison code', 'instrumented mcache replacement (never reuses, poisons freed blocks)',
                                  'contract guards of ByteQueue.tla (narrow reading of nocopy.go doc comments)'])
